@@ -11,7 +11,7 @@ TEXTCC = '<<"crlf", "lf", "trailws", "dots", "eq", "from", "bdry", "len75", "len
 BASE = dict(MAXP='2', MAXE='1', MAXA='1', ENCS='{"qp", "b64", "8bit"}', PENCS='{""}', FENCS='{""}',
             CCS=TEXTCC, PRODS='<<"string", "writer", "chunk3">>', SRCS='<<"seeker", "reader", "file", "iofs", "buffer">>',
             ROTS='{0}', BOUNDARIES='{""}', DELS='{0}', HDRS='{<<>>}', PDESCS='{""}', FDESCS='{""}', FNAMES='{""}', FCIDS='{""}', OPSEQS='{<<"WriteTo">>}', FAULTS=NOFAULT, ROUNDTRIP='{FALSE}',
-            SMIMES='{[key |-> "", inter |-> FALSE]}')
+            SMIMES='{[key |-> "", inter |-> FALSE]}', MWS='{""}')
 
 
 def cfg(**kw):
@@ -47,7 +47,7 @@ PRODFAULTS = '{[kind |-> "producer", slot |-> s, when |-> w] : s \\in 1..4, w \\
 INJ = ["crlf", "crlfcrlf", "lf", "cr", "nul", "ctl", "quotes", "encword", "badutf8", "utf8", "long", "token1000", "blanks", "tabs"]
 SETTERS = ["subject", "gen", "org", "ua", "msgid", "fromname", "toname", "mdnname"]
 NAMECLS = '{"", "utf8", "path", "semi", "crlf", "nul", "quotes", "long", "dotted", "blanks"}'
-DESCCLS = '{"", "plain", "utf8", "crlf", "lf", "nul", "long", "quotes"}'
+DESCCLS = '{"", "plain", "utf8", "longutf8", "crlf", "lf", "nul", "long", "quotes"}'
 LENS = '<<"size54", "size55", "size56", "size57", "size58", "size59", "size60", "size74", "size75", "size76", "size77", "size78", "size79", "size80", "size114", "size115", "size116", "size171", "size400", "size401", "size20000">>'
 
 STAGES.update({
@@ -97,12 +97,13 @@ STAGES.update({
             ('header-values', 'MimeBuild', cfg(MAXP='1', MAXE='0', MAXA='1', ENCS='{"qp", "b64"}', CCS='<<"crlf">>',
                                                HDRS=hdrsets(["subject", "gen", "org", "fromname"], ["plain", "long", "token300", "token78", "token1000", "blanks", "trail", "tabs", "utf8", "words5", "words20", "words40", "words75", "words76", "words77"]
                                                             + ["dwords%d" % n for n in (1, 5, 20, 40, 56, 57, 58, 70, 71, 72, 75, 76, 80, 100)])
-                                                    + ' \\cup ' + hdrsets(["preform"], ["plain", "multiline"]))),
+                                                    + ' \\cup ' + hdrsets(["preform"], ["plain", "multiline"])
+                                                    + ' \\cup ' + hdrsets(["subject", "gen", "org"], ["cr", "lf", "crlf", "ctl", "nul"]))),
             ('body-lengths-chunkings', 'MimeBuild', cfg(MAXP='2', MAXE='1', MAXA='1', ENCS='{"qp", "b64"}', PENCS='{"", "b64"}', CCS=LENS, ROTS='0..20',
                                                         PRODS='<<"string", "chunk1", "chunk3", "chunk7", "chunk57", "chunk76", "chunkr", "writer", "chunk19", "chunk2">>',
                                                         SRCS='<<"seeker", "chunk1", "chunk3", "chunk57", "reader", "chunk7">>')),
-            ('part-headers', 'MimeBuild', cfg(MAXP='2', MAXE='1', MAXA='1', ENCS='{"qp"}', CCS='<<"crlf">>', PDESCS='{"", "plain", "long", "utf8"}',
-                                              FDESCS='{"", "long", "utf8"}', FNAMES='{"", "long", "utf8", "dotted"}')),
+            ('part-headers', 'MimeBuild', cfg(MAXP='2', MAXE='1', MAXA='1', ENCS='{"qp"}', CCS='<<"crlf">>', PDESCS='{"", "plain", "long", "utf8", "longutf8"}',
+                                              FDESCS='{"", "long", "utf8", "longutf8"}', FNAMES='{"", "long", "utf8", "dotted"}')),
         ],
         'thorough': [
             ('header-values', 'MimeBuild', cfg(MAXP='2', MAXE='0', MAXA='1', ENCS='{"qp", "b64"}', CCS='<<"crlf">>',
@@ -120,7 +121,7 @@ STAGES.update({
             ('shapes', 'MimeBuild', cfg(MAXP='2', MAXE='1', MAXA='2', ENCS='{"qp", "b64", "8bit", "7bit"}', PENCS='{"", "b64"}', ROUNDTRIP='{TRUE}',
                                         CCS='<<"crlf", "utf8", "lf", "dots", "eq", "size300", "len76", "bin", "empty">>', ROTS='{0, 3}')),
             ('headers-and-names', 'MimeBuild', cfg(MAXP='1', MAXE='1', MAXA='1', ENCS='{"qp"}', ROUNDTRIP='{TRUE}', CCS='<<"crlf", "utf8">>',
-                                                   HDRS=hdrsets(["subject", "fromname", "toname", "cc"], ["plain", "utf8", "long", "quotes"]),
+                                                   HDRS=hdrsets(["subject", "fromname", "toname", "cc"], ["plain", "utf8", "long", "quotes", "blanks", "dwords20"]),
                                                    FNAMES='{"", "utf8", "semi", "blanks", "dotted", "longutf8"}')),
         ],
         'thorough': [
@@ -174,7 +175,9 @@ SENS_INVS_BY_BASE = {'B64Line': ['NeverTooLong']}
 SHDR = ["genempty", "genmulti", "toignore", "ccignore", "ccsome", "preform", "subject", "gen", "fromname"]
 STAGES['C08'] = {
     'quick': [
-        ('shapes-keys-inter', 'Smime', scfg(MAXP='2', MAXE='1', MAXA='1', SMIMES=KEYS4, ROTS='{0, 3}')),
+        ('shapes-keys-inter', 'Smime', scfg(MAXP='2', MAXE='1', MAXA='1', SMIMES=KEYS4, ROTS='{0, 3}', BOUNDARIES='{"", "fixed"}')),
+        # a middleware of the caller changes what is rendered: the signature must cover the message as the middleware left it
+        ('middlewares', 'Smime', scfg(MAXP='2', MAXE='1', MAXA='1', ENCS='{"qp"}', SMIMES=KEYS2, MWS='{"attach", "body"}', CCS='<<"crlf", "utf8">>')),
         ('encodings', 'Smime', scfg(MAXP='2', MAXE='1', MAXA='1', ENCS='{"qp"}', PENCS='{"", "b64", "8bit"}', FENCS='{"", "8bit", "qp"}',
                                      SMIMES=KEYS2, CCS='<<"crlf", "utf8", "dots", "eq">>')),
         ('headers', 'Smime', scfg(MAXP='2', MAXE='0', MAXA='1', ENCS='{"qp"}', SMIMES=KEYS2B,
@@ -245,7 +248,7 @@ def facts(begin):
          'nested_multiparts': (1 if np > 1 else 0) + (1 if ne >= 1 and np + ne > 1 else 0) + (1 if na >= 1 and np + ne + na > 1 else 0) >= 2,
          'fault': (begin.get('fault') or {}).get('kind', 'none'), 'signed': bool(begin.get('signed')),
          'key': (p.get('smime') or {}).get('key', '')}
-    longish = ('long', 'utf8', 'blanks', 'quotes', 'semi', 'token1000', 'encword')
+    longish = ('long', 'utf8', 'longutf8', 'blanks', 'quotes', 'semi', 'token1000', 'encword')
     for s in p['embeds'] + p['atts']:
         if s['name'] in longish or s['desc'] in longish:
             f['long_part_header_value'] = True
